@@ -144,7 +144,7 @@ def restyle(yaml, node, style):
 def explore(ctx):
     yaml, yatiml = L.setup()
     rng = ctx.rng
-    cases = []
+    cases = LC.CaseBuffer(ctx)
     for c in LC.gen_cases(ctx, ctx.budget(600, 9000), mutate_p=0.3, prop='C13'):
         if c.doc is not None and rng.random() < 0.3:
             # application tags on scalars (they are stripped under Any / untyped / extra positions)
